@@ -29,6 +29,14 @@ class _Return(Exception):
         self.value = value
 
 
+class _Break(Exception):
+    pass
+
+
+class _Continue(Exception):
+    pass
+
+
 DATA0 = [("byte", 0), ("byte", 1), ("byte", 2), ("byte", 3)]
 
 
@@ -125,7 +133,20 @@ class Evaluator:
             return self.ev(e.body if self.truth(self.ev(e.test, env)) else e.orelse, env)
         if isinstance(e, ast.Call):
             return self.call(e, env)
+        if isinstance(e, ast.Lambda):
+            if e.args.vararg or e.args.kwarg or e.args.kwonlyargs or e.args.defaults:
+                raise Unsupported("lambda signature")
+            return ("lambda", e, dict(env))
+        if isinstance(e, ast.Starred):
+            raise Unsupported("starred")
         raise Unsupported(type(e).__name__)
+
+    def apply_lambda(self, lam, args):
+        _, node, cenv = lam
+        ps = [a.arg for a in node.args.posonlyargs + node.args.args]
+        if len(ps) != len(args):
+            raise _Raise("TypeError")
+        return self.ev(node.body, dict(cenv, **dict(zip(ps, args))))
 
     def binop(self, op, a, b):
         if isinstance(a, int) and isinstance(b, int) and not isinstance(a, bool):
@@ -187,7 +208,30 @@ class Evaluator:
         return bool(v)
 
     def call(self, e, env):
+        if isinstance(e.func, ast.Lambda) or (isinstance(e.func, ast.Name) and isinstance(env.get(e.func.id), tuple)
+                                              and env[e.func.id][:1] == ("lambda",)):
+            if e.keywords:
+                raise Unsupported("keyword call of a lambda")
+            return self.apply_lambda(self.ev(e.func, env), [self.ev(a, env) for a in e.args])
         n = call_name(e)
+        if n in ("zip", "enumerate", "len", "reversed", "bool", "abs", "min", "max"):
+            args = [self.ev(a, env) for a in e.args]
+            conc = lambda v: isinstance(v, (list, tuple, range)) and not (isinstance(v, tuple) and v and isinstance(v[0], str))
+            if n == "zip" and all(conc(a) for a in args) and not e.keywords:
+                return [tuple(t) for t in zip(*args)]
+            if n == "enumerate" and 1 <= len(args) <= 2 and conc(args[0]) and (len(args) == 1 or isinstance(args[1], int)) and not e.keywords:
+                return [tuple(t) for t in enumerate(args[0], *(args[1:]))]
+            if n == "len" and len(args) == 1 and conc(args[0]):
+                return len(args[0])
+            if n == "len" and len(args) == 1 and isinstance(args[0], tuple) and args[0] and args[0][0] == "data":
+                return 4
+            if n == "reversed" and len(args) == 1 and conc(args[0]):
+                return list(reversed(args[0]))
+            if n == "bool" and len(args) == 1:
+                return self.truth(args[0])
+            if n in ("abs", "min", "max") and args and all(isinstance(a, int) for a in args):
+                return {"abs": abs, "min": min, "max": max}[n](*args)
+            raise Unsupported(f"call {n}")
         args = [self.ev(a, env) for a in e.args if not (isinstance(a, ast.Name) and a.id == "self" and n.count(".") == 1 and n.split(".")[0] == self.ci.name)]
         if n in ("bytes", "bytearray", "list", "tuple") and len(args) == 1:
             v = args[0]
@@ -276,6 +320,48 @@ class Evaluator:
             self.assign(s.target, v, env)
             return
         if isinstance(s, ast.Pass):
+            return
+        if isinstance(s, ast.Break):
+            raise _Break()
+        if isinstance(s, ast.Continue):
+            raise _Continue()
+        if isinstance(s, ast.For):
+            it = self.ev(s.iter, env)
+            if isinstance(it, tuple) and it and it[0] == "data":
+                it = list(it[1])
+            if not isinstance(it, (list, tuple, range)) or (isinstance(it, tuple) and it and isinstance(it[0], str)):
+                raise Unsupported("loop over a symbolic iterable")
+            if len(it) > 256:
+                raise Unsupported("long loop")
+            broke = False
+            for v in it:
+                self.assign(s.target, v, env)
+                try:
+                    self.block(s.body, env)
+                except _Break:
+                    broke = True
+                    break
+                except _Continue:
+                    continue
+            if not broke:
+                self.block(s.orelse, env)
+            return
+        if isinstance(s, ast.While):
+            broke = False
+            for _ in range(256):
+                if not self.truth(self.ev(s.test, env)):
+                    break
+                try:
+                    self.block(s.body, env)
+                except _Break:
+                    broke = True
+                    break
+                except _Continue:
+                    continue
+            else:
+                raise Unsupported("unbounded loop")
+            if not broke:
+                self.block(s.orelse, env)
             return
         if isinstance(s, ast.Assert):
             if not self.truth(self.ev(s.test, env)):
